@@ -35,7 +35,23 @@ const std::vector<const char*> FIELDS = {"src", "width", "n", "huge", "wmode", "
 // tail x0.. : edges as triples (src, dst, weight-seed); src/dst are taken
 // modulo the node count, negative values count from the last node
 
-// ---- known findings (excluded by construction when listed in VERIF_EXCLUDE)
+// ---- known findings (excluded by construction when listed in VERIF_EXCLUDE).
+// The generator avoids the graph shape where the shape is a property of the
+// whole case (K_V2PAD: adds an edge to make the count even; K_W1: 2-byte
+// instead of 1-byte data).  Where the shape is one of the many sub-range reads
+// a case performs (K_BUFEMPTY, K_MAP0; K_V2PAD for fromGraph / copies of
+// parts) run() does not issue that one operation; run() also applies the
+// whole-case exclusions, so that replayed, shrunk and fuzzer-made cases honour
+// them too.  Every avoided operation is counted with count_excluded().
+//
+// K_V2PAD: version 2, odd edge count, edge data: fromMem()/fromArrays() skip 8
+//   bytes of padding the documented V2 layout, rawBlockSize(), partFromFile()
+//   and OfflineGraph do not have (all in-memory FileGraph readers are skipped)
+// K_BUFEMPTY: BufferedGraph::loadPartialGraph of nodes without edges at an edge
+//   offset > 0: edgeBegin(first node) was 0  (fixed in the tree by 82e549e)
+// K_W1: 1-byte edge data: fromMem(lenlimit) decides "file has no edge data"
+// K_MAP0: partFromFile maps a zero-length piece whose file offset is a multiple
+//   of allocSize() (2 MiB): mmap(length 0) fails and the library aborts
 static const char* const K_V2PAD    = "C12/FileGraph/v2-odd-edges-padding";
 static const char* const K_BUFEMPTY = "C12/BufferedGraph/empty-part-edge-begin";
 static const char* const K_W1       = "C12/FileGraph/w1-edge-data-dropped";
@@ -272,6 +288,12 @@ Case generate() {
   c[F_PERM]    = *uni(0, 4);
   c[F_PSEED]   = *uni(0, 1 << 16);
   c[F_READERS] = *gen::weightedElement<int>({{3, 0}, {1, 1}}) ? *uni(1, R_ALL + 1) : R_ALL;
+  // fromFileInterleaved (and partFromFile's numaMap) start a run on every pool
+  // thread, which is very slow on a loaded machine: on 1 case in 24
+  if (*gen::weightedElement<int>({{23, 1}, {1, 0}}))
+    c[F_READERS] &= ~(int64_t)R_INTERLEAVED;
+  if (c[F_READERS] == 0)
+    c[F_READERS] = R_FROMFILE;
   if (cls == 2) // 2 MiB files: sub-range reads plus a few of the other readers
     c[F_READERS] = R_PART | (1 << *uni(0, 10)) | (1 << *uni(0, 10));
   int ne       = n == 0 ? 0 : *gen::inRange(0, cls == 0 ? 70 : 24);
@@ -610,7 +632,7 @@ static std::vector<Range> ranges_of(const Case& c, const Built& B) {
     for (uint64_t k = 0; k <= n; ++k) { // every split point
       s.insert({0, k});
       s.insert({k, n});
-      if (k < n)
+      if (k < n && (n <= 24 || prf((uint64_t)c[F_PSEED], k, n) % n < 8)) // single-node parts: all / a sample
         s.insert({k, k + 1});
     }
     if (n <= 8)
@@ -700,7 +722,7 @@ static void check_part_from_file(const Case& c, const Built& B, const std::strin
              (ull)a, (ull)b, (ull)M.prefix[a], (ull)M.prefix[b], (ull)M.n, (ull)M.m, M.version, st);
     }
     GG::FileGraph fg;
-    do_part_from_file(fg, path, M, a, b, idx % 7 == 3);
+    do_part_from_file(fg, path, M, a, b, (c[F_READERS] & R_INTERLEAVED) && (idx == 3 || idx == 12)); // numaMap: pages in with 2 threads
     check_fg<E>("partFromFile", fg, B, M, a, b, true);
     if (idx % 3 == 0 || ranges.size() <= 24) { // a copy of a partially loaded graph is the same part
       uint64_t pe = M.prefix[b] - M.prefix[a];
@@ -1036,7 +1058,8 @@ void run(const Case& c0) {
   label("odd_with_data", (long)((M.m & 1) && M.w > 0));
   label("selfloop", (long)B.selfloop);
   label("duplicate", (long)B.dup);
-  label("readers", c[F_READERS] == R_ALL ? "all" : "subset");
+  label("readers", (c[F_READERS] | R_INTERLEAVED) == R_ALL ? "all" : "subset");
+  label("interleaved", (long)((c[F_READERS] & R_INTERLEAVED) != 0));
   bool isolated_tail = M.n > 0 && M.m > 0 && M.deg(M.n - 1) == 0;
   label("isolated_last_node", (long)isolated_tail);
   switch (c[F_WIDTH]) {
